@@ -575,6 +575,10 @@ impl<W: Word, B: AsRef<[W]> + AsMut<[W]>> BitFieldSliceMut<W> for BitFieldVec<W,
         }
         let bit_width = Ord::min(self.bit_width, dst.bit_width);
         let bit_len = len * bit_width;
+        if bit_len == 0 {
+            // Bit width zero: there is nothing to copy
+            return;
+        }
         let src_pos = from * self.bit_width;
         let dst_pos = to * dst.bit_width;
         let src_bit = src_pos % W::BITS;
